@@ -645,6 +645,9 @@ func applyValid(step int, r Req, resp any, models map[string]*model.Map, xtables
 	case "Txn":
 		q := &regattapb.TxnRequest{}
 		_ = q.UnmarshalVT(r.Wire)
+		if r.Target == "follower" && q.IsReadonly() {
+			return nil // answered from the follower's own, possibly lagging copy: some prefix (C05/C10/C11 territory)
+		}
 		m := models[string(q.Table)]
 		ok, ops := m.ApplyTxn(q.Compare, q.Success, q.Failure)
 		tr := resp.(*regattapb.TxnResponse)
